@@ -139,6 +139,48 @@ Theorem C20_step_translate_back_end_to_end :
     resolve (step_cwd root wd) (translate_back cwd (step_env root wd) q s_dot) = resolve root q.
 Proof. exact step_translate_back_end_to_end. Qed.
 
+(* 9. The affixes restored by _keep_affixes do not change the designated file: what api.static /
+      api.glob record for "./sub/" is the same directory the caller means. *)
+Theorem C20_apply_affixes_same_file :
+  forall d q l t r, apply_affixes q l t = Ok r -> q <> [] -> resolve d r = resolve d q.
+Proof. exact apply_affixes_same_file. Qed.
+
+Theorem C20_keep_translate_designates_same :
+  forall cwd root here p r, wf_root root = true -> keep_translate cwd (mkenv root here) p = Ok r ->
+    resolve root r = resolve (caller_dir root here s_dot) p.
+Proof. exact keep_translate_designates_same. Qed.
+
+Theorem C20_keep_normpath_same_file :
+  forall d p r, keep_normpath p = Ok r -> resolve d r = resolve d p.
+Proof. exact keep_normpath_same_file. Qed.
+
+(* 10. Nothing set in the environment (a script started by hand in the project root cwd): path.py
+       falls back to root = os.getcwd() and HERE = relpath(".", root) = ".". *)
+Theorem C20_translate_designates_same_noenv :
+  forall cwd wd p, wf_root cwd = true ->
+    resolve cwd (translate cwd [] p wd) = resolve (resolve cwd wd) p.
+Proof. exact translate_designates_same_noenv. Qed.
+
+Theorem C20_translate_back_designates_same_noenv :
+  forall cwd wd q, wf_root cwd = true ->
+    resolve (resolve cwd wd) (translate_back cwd [] q wd) = resolve cwd q.
+Proof. exact translate_back_designates_same_noenv. Qed.
+
+(* 11. Declaration time versus execution time.  A step running in stored working directory wd1
+       declares a sub-step (workdir wd2, path p): the recorded path is the file p designates from
+       wd2 inside the step's real directory.  And what api.step records (tr_workdir = translate(wd),
+       paths translate(p, wd)) is consistent with where the executor later runs the command. *)
+Theorem C20_nested_step_translate :
+  forall cwd root wd1 wd2 p, wf_root root = true ->
+    resolve root (translate cwd (step_env root wd1) p wd2) = resolve (resolve (step_cwd root wd1) wd2) p.
+Proof. exact nested_step_translate. Qed.
+
+Theorem C20_declared_paths_match_execution :
+  forall cwd root here wd p, wf_root root = true ->
+    resolve root (translate cwd (mkenv root here) p wd)
+    = resolve (step_cwd root (translate cwd (mkenv root here) wd translate_default_workdir)) p.
+Proof. exact declared_paths_match_execution. Qed.
+
 (* ---------- Examples: the hypotheses are satisfiable, the functions compute ---------- *)
 (* root "/r/proj" *)
 Definition ex_root : str := [47;114;47;112;114;111;106].
